@@ -167,6 +167,7 @@ func Run(p *gen.Program) (o Outcome) {
 			}
 		}
 	}()
+	in.block(fr, p.Prelude, false)
 	in.block(fr, p.Main, false)
 	return
 }
@@ -382,6 +383,8 @@ func (in *Interp) stmt(fr *frame, s gen.Stmt) ctl {
 		in.call(fr, s.C)
 	case *gen.Block:
 		return in.block(fr, s.Body, true)
+	case *gen.Raw:
+		panic(&Unspecified{"raw statement"})
 	default:
 		panic(fmt.Sprintf("ref: statement %T", s))
 	}
